@@ -85,7 +85,24 @@ func checkC05(p *load.Program, r *kit.Report) {
 		}
 	})
 	if prepend == nil {
-		r.Bad("LOCKSTEP", "synchronizeBlocks/prepend", pos, "the walk back does not prepend the previous hash to the request list (append([]{prev}, hashes...))")
+		// equivalent form: the walk appends (descending heights) and the list is reversed in place,
+		// once, before the first request
+		kit.AllInstrs(f, func(in ssa.Instruction) {
+			c, ok := in.(*ssa.Call)
+			if !ok || kit.CallID(c) != "builtin.append" || len(cycleOf(c.Block())) == 0 {
+				return
+			}
+			if _, isPhi := c.Call.Args[0].(*ssa.Phi); isPhi {
+				if sl, ok := c.Call.Args[1].(*ssa.Slice); ok {
+					if _, isArr := sl.X.(*ssa.Alloc); isArr && reversedBefore(f, add) {
+						prepend = c
+					}
+				}
+			}
+		})
+	}
+	if prepend == nil {
+		r.Bad("LOCKSTEP", "synchronizeBlocks/prepend", pos, "the walk back does not prepend the previous hash to the request list (append([]{prev}, hashes...)), nor append it and reverse the list once before the requests")
 		return
 	}
 	var walkH *ssa.Phi
@@ -196,6 +213,9 @@ func checkC05(p *load.Program, r *kit.Report) {
 		hArg := kit.Strip(add.Call.Args[3])
 		bad := ""
 		walkL, _ := prepend.Call.Args[1].(*ssa.Phi)
+		if walkL == nil {
+			walkL, _ = prepend.Call.Args[0].(*ssa.Phi) // append-and-reverse form
+		}
 		// the list walked by the request loop and the index of the current element
 		var listV, listIdx ssa.Value
 		if s, ix, ok := elemIndex(kit.Strip(add.Call.Args[2])); ok {
@@ -470,4 +490,100 @@ func indexCounter(idx ssa.Value) (*ssa.Phi, int64, bool) {
 		return nil, 0, false
 	}
 	return ph, *init + start, true
+}
+
+
+// reversedBefore: a loop `for i, j := 0, len(l)-1; i < j; i, j = i+1, j-1 { l[i], l[j] = l[j], l[i] }`
+// runs on every path before `before` (its header dominates it and the loop does not contain it).
+func reversedBefore(f *ssa.Function, before ssa.Instruction) bool {
+	for _, h := range f.Blocks {
+		back := false
+		for _, pr := range h.Preds {
+			if h.Dominates(pr) {
+				back = true
+			}
+		}
+		if !back || !h.Dominates(before.Block()) {
+			continue
+		}
+		loop := naturalLoop(h)
+		if loop[before.Block()] {
+			continue
+		}
+		// two counters: +1 from 0, -1 from len-1
+		var up, down *ssa.Phi
+		for _, in := range h.Instrs {
+			ph, ok := in.(*ssa.Phi)
+			if !ok {
+				continue
+			}
+			for _, e := range ph.Edges {
+				if bo, ok := e.(*ssa.BinOp); ok && bo.X == ssa.Value(ph) {
+					if k, isC := kit.ConstInt(bo.Y); isC && k == 1 {
+						switch bo.Op {
+						case token.ADD:
+							up = ph
+						case token.SUB:
+							down = ph
+						}
+					}
+				}
+			}
+		}
+		if up == nil || down == nil {
+			continue
+		}
+		initOK := false
+		for _, e := range up.Edges {
+			if k, isC := kit.ConstInt(e); isC && k == 0 {
+				initOK = true
+			}
+		}
+		downInit := false
+		for _, e := range down.Edges {
+			if bo, ok := e.(*ssa.BinOp); ok && bo.Op == token.SUB {
+				if k, isC := kit.ConstInt(bo.Y); isC && k == 1 && isCallTo(bo.X, "builtin.len") != nil {
+					downInit = true
+				}
+			}
+		}
+		condOK := false
+		if iff, ok := h.Instrs[len(h.Instrs)-1].(*ssa.If); ok {
+			if bo, ok := iff.Cond.(*ssa.BinOp); ok && ((bo.Op == token.LSS && bo.X == ssa.Value(up) && bo.Y == ssa.Value(down)) || (bo.Op == token.GTR && bo.X == ssa.Value(down) && bo.Y == ssa.Value(up))) {
+				condOK = true
+			}
+		}
+		// the swap: stores at [up] and [down], each of a value loaded from the other index
+		swapUp, swapDown := false, false
+		for b := range loop {
+			for _, in := range b.Instrs {
+				st, ok := in.(*ssa.Store)
+				if !ok {
+					continue
+				}
+				ia, ok := st.Addr.(*ssa.IndexAddr)
+				if !ok {
+					continue
+				}
+				src, ok := st.Val.(*ssa.UnOp)
+				if !ok || src.Op != token.MUL {
+					continue
+				}
+				sia, ok := src.X.(*ssa.IndexAddr)
+				if !ok || kit.Strip(sia.X) != kit.Strip(ia.X) {
+					continue
+				}
+				if ia.Index == ssa.Value(up) && sia.Index == ssa.Value(down) {
+					swapUp = true
+				}
+				if ia.Index == ssa.Value(down) && sia.Index == ssa.Value(up) {
+					swapDown = true
+				}
+			}
+		}
+		if initOK && downInit && condOK && swapUp && swapDown {
+			return true
+		}
+	}
+	return false
 }
